@@ -180,12 +180,12 @@ def find_range(src: str, m: str, impl_regex: str, fn_name: str, start_re: str, e
     if len(s_hits) != 1:
         raise AnchorError(f'range start /{start_re}/ in fn {fn_name} matched {len(s_hits)} lines')
     si = s_hits[0]
-    if end_re == '@stmt':
+    if end_re in ('@stmt', '@block'):
         # the statement that starts on the START line: up to the first line ending with ';' at balanced depth
         ei = None
         for i in range(si, len(lines)):
             seg = m[offs[si]:offs[i] + len(lines[i])]
-            if seg.count('{') == seg.count('}') and seg.count('(') == seg.count(')') and seg.rstrip().endswith(';'):
+            if seg.count('{') == seg.count('}') and seg.count('(') == seg.count(')') and seg.rstrip().endswith(';' if end_re == '@stmt' else '}'):
                 ei = i
                 break
         if ei is None:
